@@ -28,7 +28,7 @@ for sid in sorted(os.listdir(os.path.join(VERIF, 'seeded'))):
         import tempfile, shutil
         tmp = tempfile.mkdtemp(prefix='a5seed-')
         shutil.copytree('/repo/a5', os.path.join(tmp, 'a5'), ignore=shutil.ignore_patterns('__pycache__'))
-        r = sh('git', 'apply', os.path.join(d, 'patch.diff'), cwd=tmp)
+        r = sh('git', 'apply', '--include=a5/*', os.path.join(d, 'patch.diff'), cwd=tmp)     # (only the library is copied)
         root = tmp
     else:
         r = sh('git', '-C', '/repo', 'apply', os.path.join(d, 'patch.diff'))
